@@ -250,6 +250,10 @@ def forms_after_arithmetic_and_edits(mask, values, yx, seed):
     un = np.argwhere(~mask)
     ma = np.argwhere(mask)
     c = rng.choice([10.0, -3.0, 0.5])
+    if seed % 4 == 0:
+        # the same at a magnitude of 1e-12 (fluxes in physical units): a masked entry of 1e-13 is as non-zero as one of 10
+        f = 2.0 ** -40
+        values, yx, c = values * f, yx * f, c * f
 
     def nat(slim, tail=()):
         out = np.zeros(mask.shape + tuple(tail))
@@ -286,7 +290,7 @@ def forms_after_arithmetic_and_edits(mask, values, yx, seed):
             if msg:
                 return msg
             k = rng.randrange(len(un))
-            v = 20.0 + rng.random() if kind == "array" else np.array([20.0 + rng.random(), -20.0])
+            v = (20.0 + rng.random()) * (2.0 ** -40 if seed % 4 == 0 else 1.0) if kind == "array" else np.array([20.0 + rng.random(), -20.0])
             if store_native:
                 obj[tuple(un[k])] = v
             else:
